@@ -106,10 +106,13 @@ Definition filled (u : Z) (W : table) : matrix :=
 
 (* ------------------------------------------------------------------ float64 exactness
    scipy.optimize.linear_sum_assignment converts every matrix to float64 and runs a shortest augmenting
-   path algorithm whose intermediate values (path costs, dual variables, reduced costs) are alternating
-   sums of distinct matrix entries.  They are integers of magnitude at most 4 * (sum of |entries|); while
-   that stays within 2^53 every operation is exact.  Bounding the single weights by 2^53 is NOT enough
-   (witness in MatchProofs / corpus: a 2x3 table of weights in [2^53 - 3, 2^53] gets a non-minimal total). *)
+   path algorithm.  Rationale for the bound (an argument about scipy, not a theorem - scipy is an oracle;
+   the harness tests the solver contract on every call inside the bound, incl. right at its edge): the
+   intermediate values (path costs, dual variables, reduced costs) are alternating sums of distinct matrix
+   entries, so they are integers of magnitude at most 4 * (sum of |entries|); while that stays within 2^53
+   every float64 operation is exact.  Bounding the single weights by 2^53 is NOT enough: the 2x3 table
+   [[2^53-2, 2^53-2, 2^53-1], [2^53-3, 2^53-2, 2^53]] (corpus) gets a total that is off by one.
+   Probing found no failure below 16 times this bound; the bound is deliberately conservative. *)
 Definition msum_abs (M : matrix) : Z :=
   fold_right (fun row acc => fold_right (fun x a => Z.abs x + a) 0 row + acc) 0 M.
 Definition float_safeb (M : matrix) : bool := 4 * msum_abs M <=? 2 ^ 53.
